@@ -532,8 +532,12 @@ impl Schedule {
             assert_eq!(vehicle_ids_as_set.len(), train_formation.ids().len());
         }
 
-        // check if depot spawning limits are respected
+        // check if depot spawning limits are respected (the overflow depot has no limit)
+        let overflow_depot = self.network.overflow_depot_idxs().0;
         for (depot, vehicle_type) in self.depot_usage.keys().cloned() {
+            if depot == overflow_depot {
+                continue;
+            }
             let number_of_spawned_vehicles =
                 self.number_of_vehicles_of_same_type_spawned_at(depot, vehicle_type);
             let capacity = self.network.capacity_of(depot, vehicle_type);
@@ -541,6 +545,9 @@ impl Schedule {
         }
 
         for depot in self.network.depots_iter() {
+            if depot == overflow_depot {
+                continue;
+            }
             let total_capacity = self.network.total_capacity_of(depot);
             let total_spawned = self.number_of_vehicles_spawned_at(depot);
             assert!(total_spawned <= total_capacity,);
@@ -719,6 +726,10 @@ impl Schedule {
         depot_usage: &DepotUsage,
     ) -> bool {
         let depot = self.network.get_depot_idx(start_depot);
+        if depot == self.network.overflow_depot_idxs().0 {
+            // the overflow depot can always host another vehicle
+            return true;
+        }
         let capacity_for_type = self.network.capacity_of(depot, vehicle_type);
 
         if capacity_for_type == 0 {
